@@ -182,7 +182,7 @@ def convert(tb, hook_events, sid, cfg, kind, stats, mon=True):
 
 def b_engine(job):
     rng = random.Random(job["seed"])
-    g = G.Gen(rng, job["logic"])
+    g = G.Gen(rng, job["logic"], nnum=job.get("nnum", 3), maxconst=job.get("maxconst", 4))
     mode = job.get("mode", "random")
     if mode == "cnf":
         # random k-CNF near the threshold over a pool of Boolean and theory atoms: forces conflicts
@@ -306,7 +306,7 @@ def convert_frames(tb, hook_events, sid, cfg, kind, stats):
 def b_frames(job):
     """C04 (frame machine): incremental histories run with the hooks on, replayed through MainSolver.tla"""
     rng = random.Random(job["seed"])
-    g = G.Gen(rng, job["logic"])
+    g = G.Gen(rng, job["logic"], nnum=job.get("nnum", 3), maxconst=job.get("maxconst", 4))
     mode = job.get("mode", "random")
     if mode == "cnf":
         body = B.cnf_history(g, rng, n_atoms=job.get("n_atoms", 6), levels=job.get("levels", 5))
